@@ -243,6 +243,68 @@ def _clean_and_neutral(ctx):
     shutil.rmtree(d, ignore_errors=True)
 
 
+SINGLE_CLASS = [
+    # (name, {file: text}, analysed files, options) — each input makes cppcheck report findings of ONE class only, so that
+    # no other finding can mask a lost contribution to the exit status
+    ('staticFunction', {'linkage.c': 'int helper(int x)\n{\n    return x + 1;\n}\nint main(void)\n{\n    return helper(1);\n}\n'},
+     ['linkage.c'], ['--enable=style,unusedFunction']),
+    ('unusedFunction', {'u.c': 'int never_called(int x)\n{\n    return x + 1;\n}\nint main(void)\n{\n    return 0;\n}\n'},
+     ['u.c'], ['--enable=unusedFunction']),
+    ('ctunullpointer', {'c.h': 'void deref(int *p);\n', 'a.c': '#include "c.h"\nvoid deref(int *p)\n{\n    *p = 1;\n}\n',
+                        'b.c': '#include "c.h"\nint main(void)\n{\n    int *q = 0;\n    deref(q);\n    return 0;\n}\n'},
+     ['a.c', 'b.c'], []),
+    ('odr', {'o1.cpp': 'struct Odr {\n    int a;\n    int get() const { return a; }\n};\nint main() { Odr o; o.a = 1; return o.get() - 1; }\n',
+             'o2.cpp': 'struct Odr {\n    long a;\n    long b;\n    long get() const { return a + b; }\n};\nlong use() { Odr o; o.a = 1; o.b = 2; return o.get(); }\n'},
+     ['o1.cpp', 'o2.cpp'], []),
+    ('unmatchedSuppression', {'ok.c': 'int ok(int a)\n{\n    return a + 1;\n}\n'}, ['ok.c'],
+     ['--enable=information', '--suppress=zerodiv']),
+    ('unmatchedInline', {'ok.c': 'int ok(int a)\n{\n    // cppcheck-suppress zerodiv\n    return a + 1;\n}\n'}, ['ok.c'],
+     ['--enable=information', '--inline-suppr']),
+    ('missingInclude', {'m.c': '#include "nothere.h"\nint ok(int a)\n{\n    return a + 1;\n}\n'}, ['m.c'], ['--enable=missingInclude']),
+    ('missingIncludeSystem', {'m.c': '#include <nothere_sys.h>\nint ok(int a)\n{\n    return a + 1;\n}\n'}, ['m.c'], ['--enable=missingInclude']),
+    ('style', {'s.c': 'int sv(int a)\n{\n    int unusedvar;\n    return a + 1;\n}\n'}, ['s.c'], ['--enable=style']),
+    ('warning', {'w.c': 'void wv(int *p)\n{\n    *p = 1;\n    if (p)\n        *p = 0;\n}\n'}, ['w.c'], ['--enable=warning']),
+    ('portability', {'p.c': 'int pv(int *p)\n{\n    int x = p;\n    return x;\n}\n'}, ['p.c'], ['--enable=portability']),
+    ('performance', {'q.cpp': '#include <string>\nint pf(std::string s)\n{\n    return (int)s.size();\n}\n'}, ['q.cpp'],
+     ['--enable=performance', '--library=std']),
+    ('syntaxError', {'x.c': 'int f( {\n'}, ['x.c'], []),
+    ('errorDirective', {'e.c': '#error stop here\nint ok(int a)\n{\n    return a + 1;\n}\n'}, ['e.c'], []),
+    ('header-only-error', {'h.h': 'static inline int hz(int x)\n{\n    int z = 0;\n    return x / z;\n}\n',
+                           'i.c': '#include "h.h"\nint ok(int a)\n{\n    return a + 1;\n}\n'}, ['i.c'], []),
+    ('second-config-only', {'k.c': 'int ok(int a)\n{\n#ifdef RARE\n    return a / 0;\n#else\n    return a + 1;\n#endif\n}\n'}, ['k.c'], []),
+    ('inconclusive-only', {'n.cpp': 'class M {\npublic:\n    M() : x(0) {}\n    int calc(int a) { return a * 2; }\n    int x;\n};\n'}, ['n.cpp'],
+     ['--enable=style', '--inconclusive']),
+]
+
+
+def _single_class(ctx):
+    """every class of finding, alone in its run, must drive the exit status: x E x executor x build dir x format"""
+    for name, files, srcs, opts in SINGLE_CLASS:
+        d = ctx.tmpdir('single-' + name)
+        for rel, text in files.items():
+            cases.write(os.path.join(d, rel), text)
+        cases.write(os.path.join(d, 'zz_ok.c'), 'int zz_ok(int a)\n{\n    return a + 2;\n}\n')
+        n = 0
+        for E in (7, 255, None):
+            for ex in (['-j1'], ['-j2', '--executor=thread'], ['-j2', '--executor=process']):
+                for bd in (False, True):
+                    for fmt in (('text', 'xml') if E == 7 else ('text',)):
+                        a = ['-q'] + FORMAT_ARGS[fmt] + opts + ex + (['--error-exitcode=%d' % E] if E is not None else [])
+                        if bd:
+                            b = os.path.join(d, 'bd_%d' % n)
+                            os.makedirs(b)
+                            a.append('--cppcheck-build-dir=' + b)
+                        n += 1
+                        extra = ['zz_ok.c'] if ex != ['-j1'] and not any(x.endswith('.cpp') for x in srcs) else []
+                        res = runner.cppcheck(a + srcs + extra, cwd=d)
+                        ctx.ev()
+                        r = judge(ctx, 'single-%s-%s-%s-%s-%s' % (name, E, ex[-1], bd, fmt), res, fmt, E, [],
+                                  {'project': '@' + d}, 'single-' + name)
+                        if r and r[0]:
+                            ctx.count('single_class_runs_with_findings', name)
+        shutil.rmtree(d, ignore_errors=True)
+
+
 def _replay_known(ctx):
     """known/C25/unmatched-nofail: the only reported finding is an unmatchedSuppression that an
     exit-code suppression matches, yet the exit status is --error-exitcode"""
@@ -273,5 +335,6 @@ def run(ctx):
                 'only exit-code-neutral findings / nothing reported)')
     _replay_known(ctx)
     _clean_and_neutral(ctx)
+    _single_class(ctx)
     n = ctx.n(80, 2500)
     runner.pmap(lambda i: _case(ctx, i), range(n), workers=8)
